@@ -21,149 +21,873 @@ Notation RefInvD := (RefInvD B).
 Notation RefInv := (RefInv B).
 Notation C := (C B).
 
-(** ---- number of live fidRefs ---- *)
-Definition b2n (b : bool) : nat := if b then 1 else 0.
-Definition lc (l : list fidref) : nat := length (filter live l).
-Definition live_count (s : st) : nat := lc (s_refs B s).
-Arguments lc : simpl never.
-Arguments b2n : simpl never.
+(** ---- steps that do not touch fid table, holders, fidRefs ---- *)
+Notation same_core := (same_core B).
 
-Lemma lc_upd l i x : i < length l -> lc (upd l i x) + b2n (live (nth i l dead_ref)) = lc l + b2n (live x).
+Lemma sc_fold {A} (f : A -> st -> st) (l : list A) :
+  (forall a s, same_core s (f a s)) -> forall s, same_core s (fold_left (fun st a => f a st) l s).
 Proof.
-  revert i; induction l as [|y l IH]; intros [|i] H; cbn in *; try lia.
-  - unfold lc, b2n; cbn. destruct (live x), (live y); cbn; lia.
-  - specialize (IH i ltac:(lia)). unfold lc, b2n in *; cbn. destruct (live y); cbn; lia.
+  intros H. induction l as [|a l IH]; intros s; cbn; [apply same_core_refl|].
+  eapply same_core_trans; [apply H | apply IH].
 Qed.
 
-Lemma lc_le l : lc l <= length l.
-Proof. unfold lc. induction l as [|y l IH]; cbn; [lia|]. destruct (live y); cbn; lia. Qed.
+Lemma sc_take_handle s : same_core s (take_handle B s). Proof. repeat split; auto. Qed.
 
-(** what DecRef leaves alone *)
-Definition keeps (s s' : st) : Prop :=
-  s_fids B s' = s_fids B s /\ s_held B s' = s_held B s /\ s_nexth B s' = s_nexth B s /\
-  length (s_refs B s') = length (s_refs B s) /\
-  forall q, fr_with_refs (gref s' q) 0 = fr_with_refs (gref s q) 0.
+Lemma sc_path_node_for n nm s : same_core s (snd (path_node_for B n nm s)).
+Proof. unfold path_node_for. destruct (alookup _ _ _); repeat split; auto. Qed.
 
-Lemma keeps_refl s : keeps s s. Proof. repeat split. Qed.
-Lemma keeps_trans a b c : keeps a b -> keeps b c -> keeps a c.
-Proof. intros (?&?&?&?&HA) (?&?&?&?&HB). repeat split; try congruence. Qed.
+Lemma sc_add_child n r nm s : same_core s (add_child B n r nm s).
+Proof. unfold add_child. destruct (alookup _ _ _); repeat split; auto. Qed.
 
-Lemma keeps_same_core s s' : same_core B s s' -> s_nexth B s' = s_nexth B s -> keeps s s'.
-Proof. intros (F & H & R) N. unfold keeps, get_ref. rewrite F, H, R. repeat split; auto. Qed.
+Lemma sc_add_path_node_for n nm c s : same_core s (add_path_node_for B n nm c s).
+Proof. unfold add_path_node_for. destruct (alookup _ _ _); repeat split; auto. Qed.
 
-Lemma keeps_set_refs s r z : keeps s (set_ref B r (fr_with_refs (gref s r) z) s).
+Lemma sc_notify_delete fuel : forall n s, same_core s (notify_delete B fuel n s).
 Proof.
-  repeat split; try reflexivity; [apply len_set_ref|]. intros q.
-  destruct (Nat.eq_dec r q) as [<-|N].
-  - destruct (Nat.lt_ge_cases r (length (s_refs B s))) as [L|L].
-    + rewrite gref_set_same by auto. reflexivity.
-    + unfold set_ref. rewrite upd_oob by auto. destruct s; reflexivity.
-  - rewrite gref_set_other by auto. reflexivity.
+  induction fuel as [|f IH]; intros n s; cbn [notify_delete]; [repeat split; auto|].
+  eapply same_core_trans; [apply (sc_set_node B n (pn_with_deleted (get_node B s n)) s)|].
+  apply (sc_fold (fun c st => notify_delete B f (snd c) st)). intros a s0. apply IH.
 Qed.
 
-Lemma keeps_field {A} (f : fidref -> A) s s' q :
-  (forall x z, f (fr_with_refs x z) = f x) -> keeps s s' -> f (gref s' q) = f (gref s q).
-Proof. intros Hf (_&_&_&_&H). rewrite <- (Hf (gref s' q) 0%Z), <- (Hf (gref s q) 0%Z), H. reflexivity. Qed.
+Lemma sc_renamed_call r nm s : same_core s (renamed_call B bstep r nm s).
+Proof. unfold renamed_call. destruct (fr_parent _); [apply sc_bcall | repeat split; auto]. Qed.
 
-Lemma nexth_bcall c s : s_nexth B (snd (bcall_ B bstep c s)) = s_nexth B s.
-Proof. unfold bcall_. destruct (bstep (s_be B s) c). reflexivity. Qed.
-
-Lemma nexth_remove_child n r s : s_nexth B (remove_child B n r s) = s_nexth B s.
-Proof. unfold remove_child. destruct (alookup _ _ _); auto. destruct (alookup _ _ _); auto. Qed.
-
-(** the first step of a cascade that reaches zero *)
-Lemma decref_inv2 fuel : forall r s d,
-  RefInvD s (r :: d) -> live_count s < fuel ->
-  let s' := snd (decref B bstep fuel r s) in
-  RefInvD s' d /\ live_count s' <= live_count s /\ s_oof B s' = s_oof B s /\ keeps s s'.
+Lemma sc_notify_name_change fuel : forall n s, same_core s (notify_name_change B bstep fuel n s).
 Proof.
-  induction fuel as [|f IH]; intros r s d Inv Hf; [lia|].
-  destruct Inv as (N & I2 & I3).
-  assert (Hr : r < length (s_refs B s)). { apply I3. rewrite cnt_cons, ind_same. lia. }
-  pose proof (I2 r Hr) as Er. rewrite cnt_cons, ind_same in Er.
-  cbv zeta. cbn [decref].
-  set (x := gref s r) in *.
-  set (s1 := set_ref B r (fr_with_refs x (fr_refs x - 1)) s) in *.
-  assert (Lx : live x = true). { unfold live. apply Z.ltb_lt. lia. }
-  assert (Cs1 : forall q, C s1 q + cnt (out_refs x) q = C s q + cnt (out_refs (fr_with_refs x (fr_refs x - 1))) q).
-  { intros q. apply C_set_ref; auto. }
-  assert (G1 : gref s1 r = fr_with_refs x (fr_refs x - 1)) by (apply gref_set_same; auto).
-  assert (G2 : forall q, r <> q -> gref s1 q = gref s q) by (intros; apply gref_set_other; auto).
-  assert (L1 : length (s_refs B s1) = length (s_refs B s)) by apply len_set_ref.
-  assert (K1 : keeps s s1) by apply keeps_set_refs.
-  assert (O1 : s_oof B s1 = s_oof B s) by reflexivity.
-  assert (LC1 : live_count s1 + 1 = live_count s + b2n (0 <? fr_refs x - 1)%Z).
-  { unfold live_count. change (s_refs B s1) with (upd (s_refs B s) r (fr_with_refs x (fr_refs x - 1))).
-    pose proof (lc_upd (s_refs B s) r (fr_with_refs x (fr_refs x - 1)) Hr) as E.
-    fold (gref s r) in E. fold x in E. rewrite Lx, live_refs in E. unfold b2n at 1 in E. lia. }
-  destruct (Z.eqb_spec (fr_refs x - 1) 0) as [Z0|NZ].
-  - replace (0 <? fr_refs x - 1)%Z with false in LC1 by (symmetry; apply Z.ltb_ge; lia). unfold b2n in LC1.
-    assert (Cs1' : forall q, C s1 q + (io (fr_parent x) q + io (fr_xattrOf x) q) = C s q).
-    { intros q. specialize (Cs1 q). rewrite out_refs_with_refs, cnt_out_refs, Lx in Cs1.
-      replace (0 <? fr_refs x - 1)%Z with false in Cs1 by (symmetry; apply Z.ltb_ge; lia). lia. }
-    assert (D1 : RefInvD s1 (olist (fr_xattrOf x) ++ olist (fr_parent x) ++ d)).
-    { split; [exact N|]. split.
-      - intros q Hq. rewrite L1 in Hq. rewrite !cnt_app, !cnt_olist. specialize (Cs1' q).
-        destruct (Nat.eq_dec r q) as [<-|Nq].
-        + rewrite G1. cbn. lia.
-        + rewrite G2 by auto. rewrite (I2 q Hq), cnt_cons, ind_diff by auto. lia.
-      - intros q Hq. rewrite L1. apply I3. rewrite !cnt_app, !cnt_olist in Hq. specialize (Cs1' q).
-        rewrite cnt_cons. lia. }
-    assert (Hf1 : live_count s1 < f) by lia.
-    clearbody s1. clear Cs1 Cs1' G1 G2 I2 I3 Er.
-    assert (D2 : forall s2,
-               s2 = snd (match fr_xattrOf x with
-                         | Some o => decref B bstep f o s1
-                         | None => let '(a, s2) := bcall_ B bstep (BClose (fr_file x)) s1 in
-                                   (match a with AErr e => Some e | _ => None end, s2)
-                         end) ->
-               RefInvD s2 (olist (fr_parent x) ++ d) /\ live_count s2 <= live_count s1 /\ s_oof B s2 = s_oof B s1 /\ keeps s1 s2).
-    { intros s2 ->. destruct (fr_xattrOf x) as [o|]; cbn [olist app] in D1.
-      - apply IH; auto.
-      - pose proof (sc_bcall B bstep (BClose (fr_file x)) s1) as SC.
-        pose proof (oof_bcall B bstep (BClose (fr_file x)) s1) as OB.
-        pose proof (nexth_bcall (BClose (fr_file x)) s1) as NB.
-        destruct (bcall_ B bstep (BClose (fr_file x)) s1) as [a s2]. cbn [snd] in *.
-        split; [eapply same_core_inv; eauto|]. split; [|split; [exact OB | apply keeps_same_core; auto]].
-        destruct SC as (_ & _ & R). unfold live_count. rewrite R. lia. }
-    destruct (match fr_xattrOf x with Some o => _ | None => _ end) as [e1 s2] eqn:E2.
-    destruct (D2 s2 eq_refl) as (D3 & LC2 & O2 & K2).
-    destruct (fr_parent x) as [p|]; cbn [olist app] in D3.
-    + set (s3 := remove_child B (fr_node (gref s2 p)) r s2).
-      pose proof (sc_remove_child B (fr_node (gref s2 p)) r s2) as SC3. fold s3 in SC3.
-      assert (D4 : RefInvD s3 (p :: d)) by (eapply same_core_inv; eauto).
-      assert (LC3 : live_count s3 = live_count s2). { destruct SC3 as (_ & _ & R). unfold live_count. rewrite R. reflexivity. }
-      destruct (IH p s3 d D4 ltac:(lia)) as (D5 & LC5 & O5 & K5).
-      destruct (decref B bstep f p s3) as [e2 s4]. cbn [snd] in *.
-      split; [exact D5|]. split; [lia|]. split.
-      * rewrite O5. unfold s3. rewrite oof_remove_child. congruence.
-      * eapply keeps_trans; [exact K1|]. eapply keeps_trans; [exact K2|].
-        eapply keeps_trans; [|exact K5]. apply keeps_same_core; auto. apply nexth_remove_child.
-    + cbn [snd]. split; [exact D3|]. split; [lia|]. split; [congruence|].
-      eapply keeps_trans; eauto.
-  - cbn [snd].
-    replace (0 <? fr_refs x - 1)%Z with true in LC1 by (symmetry; apply Z.ltb_lt; lia). unfold b2n in LC1.
-    assert (Cs1' : forall q, C s1 q = C s q).
-    { intros q. specialize (Cs1 q). rewrite out_refs_with_refs, cnt_out_refs, Lx in Cs1.
-      replace (0 <? fr_refs x - 1)%Z with true in Cs1 by (symmetry; apply Z.ltb_lt; lia). lia. }
-    split; [|split; [lia | split; [reflexivity | exact K1]]].
+  induction fuel as [|f IH]; intros n s; cbn [notify_name_change]; [repeat split; auto|]. cbv zeta.
+  eapply same_core_trans.
+  - apply (sc_fold (fun e st => fold_left (fun st' r => renamed_call B bstep r (fst e) st') (snd e) st)).
+    intros e s0. apply (sc_fold (fun r st' => renamed_call B bstep r (fst e) st')). intros r s1. apply sc_renamed_call.
+  - apply (sc_fold (fun c st => notify_name_change B bstep f (snd c) st)). intros a s0. apply IH.
+Qed.
+
+Lemma sc_rwn_none n nm m : forall held s, same_core s (snd (rwn_loop B n nm None m held s)).
+Proof.
+  induction m as [|r m IH]; intros held s; cbn [rwn_loop]; [apply same_core_refl|]. cbv zeta.
+  eapply same_core_trans; [|apply IH]. repeat split; auto.
+Qed.
+
+Lemma held_rwn_none' n nm m : forall held s, fst (rwn_loop B n nm None m held s) = held.
+Proof. induction m as [|r m IH]; intros held s; cbn; auto. Qed.
+
+Lemma sc_mark_child_deleted n nm s : same_core s (mark_child_deleted B bstep n nm s).
+Proof.
+  unfold mark_child_deleted, remove_with_name.
+  set (lp := match alookup Nat.eqb nm (pn_refs (get_node B s n)) with
+             | Some m => rwn_loop B n nm None m [] s | None => ([], s) end).
+  assert (H1 : fst lp = [] /\ same_core s (snd lp)).
+  { unfold lp. destruct (alookup Nat.eqb nm (pn_refs (get_node B s n))); [|split; [reflexivity | apply same_core_refl]].
+    split; [apply held_rwn_none' | apply sc_rwn_none]. }
+  destruct lp as [held s1]. cbn [fst snd] in H1. destruct H1 as (-> & SC1). cbn [release_all].
+  set (s2 := set_node B n _ s1).
+  assert (SC2 : same_core s s2) by (eapply same_core_trans; [exact SC1 | repeat split; auto]).
+  destruct (alookup Nat.eqb nm (pn_nodes (get_node B s1 n))); auto.
+  eapply same_core_trans; [exact SC2 | apply sc_notify_delete].
+Qed.
+
+Lemma sc_walk_one from_h from_node nm getattr s : same_core s (snd (walk_one B bstep from_h from_node nm getattr s)).
+Proof.
+  unfold walk_one, bcall_, path_node_for, take_handle.
+  destruct getattr, nm as [x|]; cbn;
+  repeat (match goal with
+          | |- context [bstep ?b ?c] => let a := fresh "a" in destruct (bstep b c) as [? a]; destruct a; cbn
+          | |- context [if ?b then _ else _] => destruct b; cbn
+          | |- context [alookup ?e ?k ?l] => destruct (alookup e k l); cbn
+          end); repeat split; auto.
+Qed.
+
+Lemma sc_guarded_call r g c s : same_core s (snd (guarded_call B bstep r g c s)).
+Proof.
+  unfold guarded_call. destruct g; [apply same_core_refl|].
+  pose proof (sc_bcall B bstep c s) as H. destruct (bcall_ B bstep c s) as [a s1]. destruct a; exact H.
+Qed.
+
+(** ---- the ledger of transient references ---- *)
+Definition hc (s : st) (q : nat) : nat := cnt (s_held B s) q.
+Definition pmono (s s' : st) : Prop := s_panic B s = true -> s_panic B s' = true.
+
+(** [led add rem s s']: the step added the transient references [add] and dropped [rem]; if a
+    run-time panic was flagged, references may additionally have leaked (never fewer than expected) *)
+Definition led (add rem : list nat) (s s' : st) : Prop :=
+  pmono s s' /\
+  (forall q, hc s q + cnt add q <= hc s' q + cnt rem q) /\
+  (s_panic B s' = false -> forall q, hc s q + cnt add q = hc s' q + cnt rem q).
+
+Lemma led_refl s : led [] [] s s.
+Proof. split; [intro; auto|]. split; intros; lia. Qed.
+
+Lemma led_trans a1 r1 a2 r2 s s1 s2 : led a1 r1 s s1 -> led a2 r2 s1 s2 -> led (a1 ++ a2) (r1 ++ r2) s s2.
+Proof.
+  intros (P1 & L1 & E1) (P2 & L2 & E2). split; [intro; auto|]. split.
+  - intros q. rewrite !cnt_app. specialize (L1 q). specialize (L2 q). lia.
+  - intros Hp q. assert (H1 : s_panic B s1 = false). { destruct (s_panic B s1) eqn:X; auto. rewrite (P2 X) in Hp. discriminate. }
+    rewrite !cnt_app. specialize (E1 H1 q). specialize (E2 Hp q). lia.
+Qed.
+
+Lemma led_equiv a r a' r' s s' :
+  (forall q, cnt a q + cnt r' q = cnt a' q + cnt r q) -> led a r s s' -> led a' r' s s'.
+Proof.
+  intros H (P & L & E). split; [exact P|]. split.
+  - intros q. specialize (H q). specialize (L q). lia.
+  - intros Hp q. specialize (H q). specialize (E Hp q). lia.
+Qed.
+
+Lemma led_sc s s' : same_core s s' -> led [] [] s s'.
+Proof.
+  intros (_ & Hh & _ & P). split; [exact P|]. unfold hc. rewrite Hh. split; intros; lia.
+Qed.
+
+Lemma led_ge add rem s s' q : led add rem s s' -> hc s q + cnt add q <= hc s' q + cnt rem q.
+Proof. intros (_ & L & _). apply L. Qed.
+
+Lemma C_hc s q : hc s q <= C s q.
+Proof. unfold hc. rewrite C_eq. lia. Qed.
+
+Definition heldall (l : list nat) (s : st) : Prop := forall x, In x l -> 0 < hc s x.
+
+Lemma heldall_led l s s' : led [] [] s s' -> heldall l s -> heldall l s'.
+Proof. intros L H x Hx. specialize (H x Hx). pose proof (led_ge [] [] s s' x L). cbn in *. rewrite !cnt_nil in *. lia. Qed.
+
+(** ---- primitives, with their effect on the ledger ---- *)
+Lemma sc_ok s s' d : same_core s s' -> RefInvD s d -> RefInvD s' d /\ led [] [] s s'.
+Proof. intros SC Inv. split; [eapply same_core_inv; eauto | apply led_sc; auto]. Qed.
+
+Lemma hold_ok s d r : RefInvD s d -> 0 < C s r -> RefInvD (hold B r s) d /\ led [r] [] s (hold B r s).
+Proof.
+  intros Inv H. split; [apply hold_inv; auto|]. split; [intro; auto|].
+  unfold hc, hold; cbn. split; intros; rewrite !cnt_cons, !cnt_nil; lia.
+Qed.
+
+Lemma release_ok s d r : RefInvD s d -> 0 < hc s r -> RefInvD (release B bstep r s) d /\ led [] [r] s (release B bstep r s).
+Proof.
+  intros Inv H. assert (Hin : In r (s_held B s)) by (apply cnt_in; exact H).
+  split; [apply release_inv; auto|]. unfold release.
+  set (s0 := with_held B (remove_one r (s_held B s)) s).
+  assert (D0 : RefInvD s0 (r :: d)).
+  { destruct Inv as (N & I2 & I3).
+    assert (CH : forall q, C s0 q + ind r q = C s q).
+    { intros q. rewrite !C_eq; cbn. pose proof (cnt_remove_one r (s_held B s) q Hin). lia. }
     split; [exact N|]. split.
-    + intros q Hq. rewrite L1 in Hq. rewrite Cs1'.
-      destruct (Nat.eq_dec r q) as [<-|Nq].
-      * rewrite G1. cbn. lia.
-      * rewrite G2 by auto. rewrite (I2 q Hq), cnt_cons, ind_diff by auto. lia.
-    + intros q Hq. rewrite L1. apply I3. rewrite Cs1' in Hq. rewrite cnt_cons. lia.
+    - intros q Hq. cbn in Hq. change (gref s0 q) with (gref s q). rewrite I2 by auto. rewrite cnt_cons. specialize (CH q). lia.
+    - intros q Hq. cbn. apply I3. rewrite cnt_cons in Hq. specialize (CH q). lia. }
+  destruct (decref_ok B bstep r s0 d D0) as (_ & _ & (_ & Hh & _ & _ & P & _)).
+  split; [exact P|]. unfold hc. rewrite Hh. cbn [s_held with_held s0].
+  pose proof (cnt_remove_one r (s_held B s)) as R.
+  split; intros; rewrite ?cnt_cons, ?cnt_nil; specialize (R q Hin); lia.
 Qed.
 
-Lemma fuel_enough s : live_count s < fuel_of B s.
-Proof. unfold live_count, fuel_of. pose proof (lc_le (s_refs B s)). lia. Qed.
+Lemma decref_keeps r s d : RefInvD s (r :: d) -> keeps B s (snd (decref_ B bstep r s)).
+Proof. intros D. apply (decref_ok B bstep r s d D). Qed.
 
-(** DecRef as the handlers call it *)
-Lemma decref_ok r s d :
-  RefInvD s (r :: d) ->
-  let s' := snd (decref_ B bstep r s) in
-  RefInvD s' d /\ s_oof B s' = s_oof B s /\ keeps s s'.
+Lemma insert_ok s d c fid r :
+  RefInvD s d -> 0 < C s r -> RefInvD (insert_fid B bstep c fid r s) d /\ led [] [] s (insert_fid B bstep c fid r s).
 Proof.
-  intros Inv. destruct (decref_inv2 (fuel_of B s) r s d Inv (fuel_enough s)) as (A & _ & O & K). auto.
+  intros Inv H. split; [apply insert_fid_inv; auto|].
+  (* held is untouched, panic only grows: via the shape of insert_fid *)
+  destruct (inv_live B s d r Inv H) as (L & Lv).
+  unfold insert_fid. set (s1 := with_fids B _ (incref B r s)).
+  destruct (alookup peqb (c, fid) (s_fids B s)) as [o|] eqn:E.
+  - assert (D1 : RefInvD s1 (o :: d)).
+    { (* as in insert_fid_inv *)
+      destruct Inv as (N & I2 & I3). pose proof (incref_C B s r L Lv) as EC.
+      assert (G : forall q, fr_refs (gref s1 q) = (fr_refs (gref s q) + Z.of_nat (ind r q))%Z).
+      { intros q. change (gref s1 q) with (gref (incref B r s) q). unfold incref.
+        destruct (Nat.eq_dec r q) as [<-|Nq].
+        - rewrite gref_set_same, ind_same by auto. cbn. lia.
+        - rewrite gref_set_other, ind_diff by auto. lia. }
+      assert (L1 : length (s_refs B s1) = length (s_refs B s)) by (cbn; apply upd_length).
+      assert (CH : forall q, C s1 q + ind o q = C s q + ind r q).
+      { intros q. specialize (EC q). rewrite !C_eq in *. cbn in *.
+        pose proof (cnt_aset_some peqb peqb_spec (c, fid) r o (s_fids B s) q N E). lia. }
+      split; [cbn; apply (aset_nodup peqb peqb_spec); auto|]. split.
+      + intros q Hq. rewrite L1 in Hq. rewrite G, I2 by auto. rewrite cnt_cons. specialize (CH q). lia.
+      + intros q Hq. rewrite L1. rewrite cnt_cons in Hq. specialize (CH q).
+        destruct (Nat.eq_dec r q) as [<-|Nq]; auto. rewrite (ind_diff r q) in CH by auto. apply I3. lia. }
+    destruct (decref_keeps o s1 d D1) as (_ & Hh & _ & _ & P & _).
+    split; [exact P|]. unfold hc. rewrite Hh. cbn. split; intros; lia.
+  - split; [intro; auto|]. unfold hc; cbn. split; intros; lia.
+Qed.
+
+Lemma delete_ok s d c fid :
+  RefInvD s d -> RefInvD (snd (delete_fid B bstep c fid s)) d /\ led [] [] s (snd (delete_fid B bstep c fid s)).
+Proof.
+  intros Inv. split; [apply delete_fid_inv; auto|].
+  unfold delete_fid. destruct (alookup peqb (c, fid) (s_fids B s)) as [r|] eqn:E; [|apply led_refl].
+  set (s0 := with_fids B (adel peqb (c, fid) (s_fids B s)) s).
+  assert (D0 : RefInvD s0 (r :: d)).
+  { destruct Inv as (N & I2 & I3).
+    assert (CH : forall q, C s0 q + ind r q = C s q).
+    { intros q. rewrite !C_eq. cbn. pose proof (cnt_adel peqb peqb_spec (c, fid) r (s_fids B s) q N E). lia. }
+    split; [cbn; apply (adel_nodup peqb peqb_spec); auto|]. split.
+    - intros q Hq. cbn in Hq. change (gref s0 q) with (gref s q). rewrite I2 by auto. rewrite cnt_cons. specialize (CH q). lia.
+    - intros q Hq. cbn. apply I3. rewrite cnt_cons in Hq. specialize (CH q). lia. }
+  destruct (decref_keeps r s0 d D0) as (_ & Hh & _ & _ & P & _).
+  split; [exact P|]. unfold hc. rewrite Hh. cbn. split; intros; lia.
+Qed.
+
+Lemma new_ref_inc_ok s d x :
+  RefInvD s d ->
+  (forall p, fr_parent x = Some p -> 0 < C s p /\ fr_xattrOf x = None) ->
+  (forall o, fr_xattrOf x = Some o -> 0 < C s o) ->
+  let r := new_ref_inc B x s in
+  fst r = length (s_refs B s) /\ RefInvD (snd r) d /\ led [fst r] [] s (snd r).
+Proof.
+  intros Inv HP HX. cbv zeta. split; [|split; [apply new_ref_inc_inv; auto|]].
+  - unfold new_ref_inc, new_ref. cbn. destruct (fr_parent x); [reflexivity|]. destruct (fr_xattrOf x); reflexivity.
+  - assert (E : s_held B (snd (new_ref_inc B x s)) = length (s_refs B s) :: s_held B s /\ fst (new_ref_inc B x s) = length (s_refs B s)
+               /\ s_panic B (snd (new_ref_inc B x s)) = s_panic B s).
+    { unfold new_ref_inc, new_ref. cbn. destruct (fr_parent x); [repeat split|]. destruct (fr_xattrOf x); repeat split. }
+    destruct E as (Hh & -> & P). split; [intro; congruence|]. unfold hc. rewrite Hh.
+    split; intros; rewrite !cnt_cons, !cnt_nil; lia.
+Qed.
+
+Lemma new_ref_handover_ok s d wr x :
+  RefInvD s d -> 0 < hc s wr -> fr_parent x = Some wr -> fr_xattrOf x = None ->
+  let r := new_ref_handover B wr x s in
+  fst r = length (s_refs B s) /\ RefInvD (snd r) d /\ led [fst r] [wr] s (snd r).
+Proof.
+  intros Inv H EP EX. cbv zeta. assert (Hin : In wr (s_held B s)) by (apply cnt_in; exact H).
+  split; [reflexivity|]. split; [apply new_ref_handover_inv; auto|].
+  split; [intro; auto|]. unfold hc, new_ref_handover, new_ref; cbn.
+  pose proof (cnt_remove_one wr (s_held B s)) as R.
+  split; intros; rewrite !cnt_cons, !cnt_nil; specialize (R q Hin); lia.
+Qed.
+
+(** ---- composition ---- *)
+Lemma led_weaken_panic a extra r s s' : led (a ++ extra) r s s' -> s_panic B s' = true -> led a r s s'.
+Proof.
+  intros (P & L & E) Hp. split; [exact P|]. split.
+  - intros q. specialize (L q). rewrite cnt_app in L. lia.
+  - intros X. congruence.
+Qed.
+
+Lemma led_hc_pos add rem s s' q : led add rem s s' -> 0 < hc s q + cnt add q -> cnt rem q = 0 -> 0 < hc s' q.
+Proof. intros L H R. pose proof (led_ge add rem s s' q L). lia. Qed.
+
+Definition ok (pre : list nat) (f : st -> st) : Prop :=
+  forall s d, RefInvD s d -> heldall pre s -> RefInvD (f s) d /\ led [] [] s (f s).
+
+Lemma ok_sc pre f : (forall s, same_core s (f s)) -> ok pre f.
+Proof. intros H s d Inv _. apply sc_ok; auto. Qed.
+
+Ltac led_arith := intros; rewrite ?cnt_app, ?cnt_cons, ?cnt_nil; lia.
+
+Lemma with_fid_ok pre c fid body :
+  (forall r, ok (r :: pre) (fun s => snd (body r s))) -> ok pre (fun s => snd (with_fid B bstep c fid body s)).
+Proof.
+  intros HB s d Inv HP. unfold with_fid, lookup_fid.
+  destruct (alookup peqb (c, fid) (s_fids B s)) as [r|] eqn:E; [|cbn; split; [auto | apply led_refl]].
+  destruct (hold_ok s d r Inv (C_fid B s r (alookup_in peqb peqb_spec _ _ _ E))) as (I1 & L1).
+  assert (HP1 : heldall (r :: pre) (hold B r s)).
+  { intros x [<-|Hx].
+    - eapply led_hc_pos; [exact L1 | rewrite cnt_cons, ind_same; lia | reflexivity].
+    - eapply led_hc_pos; [exact L1 | specialize (HP x Hx); lia | reflexivity]. }
+  destruct (HB r (hold B r s) d I1 HP1) as (I2 & L2).
+  destruct (body r (hold B r s)) as [rep s2]. cbn [snd] in *.
+  assert (Hr : 0 < hc s2 r). { eapply led_hc_pos; [exact L2 | specialize (HP1 r (or_introl eq_refl)); lia | reflexivity]. }
+  destruct (release_ok s2 d r I2 Hr) as (I3 & L3). split; [exact I3|].
+  eapply led_equiv; [|exact (led_trans _ _ _ _ _ _ _ (led_trans _ _ _ _ _ _ _ L1 L2) L3)]. led_arith.
+Qed.
+
+(** doWalk over one or more names *)
+Lemma walk_steps_ok names : forall wr s d,
+  RefInvD s d -> 0 < hc s wr ->
+  let r := walk_steps B bstep wr names s in
+  RefInvD (snd r) d /\ match fst r with DOk nr => led [nr] [wr] s (snd r) | DFail _ => led [] [wr] s (snd r) end.
+Proof.
+  induction names as [|nm rest IH]; intros wr s d Inv Hw; cbv zeta.
+  - cbn. split; auto. eapply led_equiv; [|apply led_refl]. led_arith.
+  - cbn [walk_steps]. cbv zeta.
+    destruct (negb (is_dir (fr_mode (gref s wr)))); [cbn [fst snd]; apply release_ok; auto|].
+    destruct (is_deleted B s wr); [cbn [fst snd]; apply release_ok; auto|].
+    pose proof (sc_walk_one (fr_file (gref s wr)) (fr_node (gref s wr)) (Some nm) true s) as SC1.
+    destruct (walk_one B bstep (fr_file (gref s wr)) (fr_node (gref s wr)) (Some nm) true s) as [w s1]. cbn [snd] in SC1.
+    destruct (sc_ok s s1 d SC1 Inv) as (I1 & L1).
+    assert (Hw1 : 0 < hc s1 wr) by (eapply led_hc_pos; [exact L1 | lia | reflexivity]).
+    destruct w as [e|h m ino].
+    + cbn [fst snd]. destruct (release_ok s1 d wr I1 Hw1) as (I2 & L2). split; auto.
+      eapply led_equiv; [|exact (led_trans _ _ _ _ _ _ _ L1 L2)]. led_arith.
+    + pose proof (sc_path_node_for (fr_node (gref s wr)) nm s1) as SC2.
+      destruct (path_node_for B (fr_node (gref s wr)) nm s1) as [cn s2]. cbn [snd] in SC2.
+      destruct (sc_ok s1 s2 d SC2 I1) as (I2 & L2).
+      assert (Hw2 : 0 < hc s2 wr) by (eapply led_hc_pos; [exact L2 | lia | reflexivity]).
+      set (x := mkref h 0 false 0 m cn (Some wr) None XNone).
+      destruct (new_ref_handover_ok s2 d wr x I2 Hw2 eq_refl eq_refl) as (E4 & I4 & L4).
+      assert (Hn : 0 < hc (snd (new_ref_handover B wr x s2)) (fst (new_ref_handover B wr x s2))).
+      { unfold hc, new_ref_handover, new_ref; cbn. rewrite cnt_cons, ind_same. lia. }
+      destruct (new_ref_handover B wr x s2) as [nr s4]. cbn [fst snd] in *.
+      pose proof (sc_add_child (fr_node (gref s wr)) nr nm s4) as SC5.
+      set (s5 := add_child B (fr_node (gref s wr)) nr nm s4) in *.
+      destruct (sc_ok s4 s5 d SC5 I4) as (I5 & L5).
+      assert (L05 : led [nr] [wr] s s5).
+      { eapply led_equiv; [|exact (led_trans _ _ _ _ _ _ _ (led_trans _ _ _ _ _ _ _ (led_trans _ _ _ _ _ _ _ L1 L2) L4) L5)]. led_arith. }
+      destruct (s_panic B s5) eqn:P5.
+      * cbn [fst snd]. split; auto. apply (led_weaken_panic [] [nr] [wr]); auto.
+      * assert (Hn5 : 0 < hc s5 nr) by (eapply led_hc_pos; [exact L5 | lia | reflexivity]).
+        specialize (IH nr s5 d I5 Hn5). cbv zeta in IH.
+        destruct (walk_steps B bstep nr rest s5) as [res s6]. cbn [fst snd] in *. destruct IH as (I6 & L6).
+        split; auto. destruct res.
+        -- eapply led_equiv; [|exact (led_trans _ _ _ _ _ _ _ L05 L6)]. led_arith.
+        -- eapply led_equiv; [|exact (led_trans _ _ _ _ _ _ _ L05 L6)]. led_arith.
+Qed.
+
+Lemma gref_sc s s' q : same_core s s' -> gref s' q = gref s q.
+Proof. intros (_ & _ & R & _). unfold get_ref. rewrite R. reflexivity. Qed.
+
+Lemma do_walk_ok ref names g s d :
+  RefInvD s d -> 0 < hc s ref ->
+  let r := do_walk B bstep ref names g s in
+  RefInvD (snd r) d /\ match fst r with DOk nr => led [nr] [] s (snd r) | DFail _ => led [] [] s (snd r) end.
+Proof.
+  intros Inv Hr. cbv zeta. unfold do_walk. destruct names as [|nm rest].
+  - set (x0 := gref s ref).
+    destruct (fr_xattrOf x0); [cbn; split; [auto | apply led_refl]|].
+    pose proof (sc_walk_one (fr_file x0) (fr_node x0) None g s) as SC1.
+    destruct (walk_one B bstep (fr_file x0) (fr_node x0) None g s) as [w s1]. cbn [snd] in SC1.
+    destruct (sc_ok s s1 d SC1 Inv) as (I1 & L1).
+    destruct w as [e|h m ino]; [cbn; auto|].
+    set (x := mkref h 0 false 0 (fr_mode x0) (fr_node x0) (fr_parent x0) None XNone).
+    assert (Hr1 : 0 < hc s1 ref) by (eapply led_hc_pos; [exact L1 | lia | reflexivity]).
+    assert (HP : forall p, fr_parent x = Some p -> 0 < C s1 p /\ fr_xattrOf x = None).
+    { intros p Hp. split; [|reflexivity]. cbn in Hp.
+      destruct (inv_live B s1 d ref I1 ltac:(pose proof (C_hc s1 ref); lia)) as (Lr & Lv).
+      apply (C_parent B s1 ref p Lr Lv). rewrite (gref_sc s s1 ref SC1). exact Hp. }
+    destruct (new_ref_inc_ok s1 d x I1 HP ltac:(intros o Ho; discriminate)) as (E2 & I2 & L2).
+    destruct (new_ref_inc B x s1) as [nr s2]. cbn [fst snd] in *.
+    assert (L02 : led [nr] [] s s2). { eapply led_equiv; [|exact (led_trans _ _ _ _ _ _ _ L1 L2)]. led_arith. }
+    destruct (fr_parent x0) as [p|]; [|cbn; auto].
+    destruct (is_deleted B s2 nr); [cbn; auto|].
+    destruct (name_for B (fr_node (gref s2 p)) ref s2) as [nm|].
+    + pose proof (sc_add_child (fr_node (gref s2 p)) nr nm s2) as SC3.
+      set (s3 := add_child B (fr_node (gref s2 p)) nr nm s2) in *.
+      destruct (sc_ok s2 s3 d SC3 I2) as (I3 & L3).
+      assert (L03 : led [nr] [] s s3). { eapply led_equiv; [|exact (led_trans _ _ _ _ _ _ _ L02 L3)]. led_arith. }
+      destruct (s_panic B s3) eqn:P3; cbn [fst snd]; split; auto.
+      apply (led_weaken_panic [] [nr] []); auto.
+    + cbn [fst snd]. destruct (sc_ok s2 (set_panic B s2) d (sc_set_panic B s2) I2) as (I3 & L3). split; auto.
+      apply (led_weaken_panic [] [nr] []); [|reflexivity].
+      eapply led_equiv; [|exact (led_trans _ _ _ _ _ _ _ L02 L3)]. led_arith.
+  - destruct (hold_ok s d ref Inv ltac:(pose proof (C_hc s ref); lia)) as (I1 & L1).
+    assert (H1 : 0 < hc (hold B ref s) ref) by (eapply led_hc_pos; [exact L1 | rewrite cnt_cons, ind_same; lia | reflexivity]).
+    pose proof (walk_steps_ok (nm :: rest) ref (hold B ref s) d I1 H1) as W. cbv zeta in W.
+    destruct (walk_steps B bstep ref (nm :: rest) (hold B ref s)) as [res s2]. cbn [fst snd] in *. destruct W as (I2 & L2).
+    split; auto. destruct res.
+    + eapply led_equiv; [|exact (led_trans _ _ _ _ _ _ _ L1 L2)]. led_arith.
+    + eapply led_equiv; [|exact (led_trans _ _ _ _ _ _ _ L1 L2)]. led_arith.
+Qed.
+
+(** ---- the handlers ---- *)
+Ltac sc_leaf :=
+  first [ apply same_core_refl | apply sc_guarded_call | apply sc_bcall | apply sc_set_panic
+        | match goal with
+          | |- same_core ?s (snd (let '(_, _) := guarded_call B bstep ?a ?g ?c ?s in _)) =>
+              let H := fresh in pose proof (sc_guarded_call a g c s) as H;
+              destruct (guarded_call B bstep a g c s); exact H
+          end ].
+
+Lemma set_fields_ok s d r x' :
+  RefInvD s d -> fr_refs x' = fr_refs (gref s r) -> fr_parent x' = fr_parent (gref s r) -> fr_xattrOf x' = fr_xattrOf (gref s r) ->
+  RefInvD (set_ref B r x' s) d /\ led [] [] s (set_ref B r x' s).
+Proof.
+  intros Inv E1 E2 E3. split; [apply set_fields_inv; auto|].
+  split; [intro; auto|]. unfold hc; cbn. split; intros; lia.
+Qed.
+
+Lemma ok_walk_op c fid newfid names g : ok [] (fun s => snd (do_walk_op B bstep c fid newfid names g s)).
+Proof.
+  unfold do_walk_op. apply with_fid_ok. intros r s d Inv HP.
+  destruct (fr_opened (gref s r) && (fid =? newfid)); [cbn; split; [auto | apply led_refl]|].
+  assert (Hr : 0 < hc s r) by (apply HP; left; reflexivity).
+  pose proof (do_walk_ok r names g s d Inv Hr) as W. cbv zeta in W.
+  destruct (do_walk B bstep r names g s) as [res s1]. cbn [fst snd] in W. destruct W as (I1 & L1).
+  destruct res as [e|nr]; [cbn; auto|]. cbn [snd].
+  assert (Hn : 0 < hc s1 nr) by (eapply led_hc_pos; [exact L1 | rewrite cnt_cons, ind_same; lia | reflexivity]).
+  destruct (insert_ok s1 d c newfid nr I1 ltac:(pose proof (C_hc s1 nr); lia)) as (I2 & L2).
+  assert (Hn2 : 0 < hc (insert_fid B bstep c newfid nr s1) nr) by (eapply led_hc_pos; [exact L2 | lia | reflexivity]).
+  destruct (release_ok _ d nr I2 Hn2) as (I3 & L3). split; auto.
+  eapply led_equiv; [|exact (led_trans _ _ _ _ _ _ _ (led_trans _ _ _ _ _ _ _ L1 L2) L3)]. led_arith.
+Qed.
+
+Lemma ok_attach c fid names : ok [] (fun s => snd (do_attach B bstep c fid names s)).
+Proof.
+  intros s d Inv _. unfold do_attach.
+  pose proof (sc_bcall B bstep (BAttach (s_nexth B s)) s) as SC1.
+  destruct (bcall_ B bstep (BAttach (s_nexth B s)) s) as [a s1]. cbn [snd] in SC1.
+  destruct (sc_ok s s1 d SC1 Inv) as (I1 & L1).
+  assert (Main : forall (s1' := take_handle B s1),
+     let '(root, s2) := new_ref B (mkref (s_nexth B s) 0 false 0 MNone 0 None None XNone) s1' in
+     let '(a2, s3) := bcall_ B bstep (BGetAttr (s_nexth B s)) s2 in
+     RefInvD (snd (match a2 with
+      | AErr e => (rerr e, release B bstep root s3)
+      | AOk m ino | ABadQ m ino =>
+          let s4 := set_ref B root (fr_with_mode (gref s3 root) m) s3 in
+          match names with
+          | [] => (rok ino, release B bstep root (insert_fid B bstep c fid root s4))
+          | _ =>
+              let '(d0, s5) := do_walk B bstep root names false s4 in
+              match d0 with
+              | DFail e => (rerr e, release B bstep root s5)
+              | DOk nr => (rok ino, release B bstep root (release B bstep nr (insert_fid B bstep c fid nr s5)))
+              end
+          end
+      end)) d /\
+     led [] [] s (snd (match a2 with
+      | AErr e => (rerr e, release B bstep root s3)
+      | AOk m ino | ABadQ m ino =>
+          let s4 := set_ref B root (fr_with_mode (gref s3 root) m) s3 in
+          match names with
+          | [] => (rok ino, release B bstep root (insert_fid B bstep c fid root s4))
+          | _ =>
+              let '(d0, s5) := do_walk B bstep root names false s4 in
+              match d0 with
+              | DFail e => (rerr e, release B bstep root s5)
+              | DOk nr => (rok ino, release B bstep root (release B bstep nr (insert_fid B bstep c fid nr s5)))
+              end
+          end
+      end))).
+  { intros s1'. pose proof (sc_take_handle s1) as SCt. fold s1' in SCt.
+    destruct (sc_ok s1 s1' d SCt I1) as (It & Lt).
+    set (x := mkref (s_nexth B s) 0 false 0 MNone 0 None None XNone).
+    change (new_ref B x s1') with (new_ref_inc B x s1').
+    destruct (new_ref_inc_ok s1' d x It ltac:(intros p Hp; discriminate) ltac:(intros o Ho; discriminate)) as (E2 & I2 & L2).
+    destruct (new_ref_inc B x s1') as [root s2]. cbn [fst snd] in *.
+    pose proof (sc_bcall B bstep (BGetAttr (s_nexth B s)) s2) as SC3.
+    destruct (bcall_ B bstep (BGetAttr (s_nexth B s)) s2) as [a2 s3]. cbn [snd] in SC3.
+    destruct (sc_ok s2 s3 d SC3 I2) as (I3 & L3).
+    assert (L03 : led [root] [] s s3).
+    { eapply led_equiv; [|exact (led_trans _ _ _ _ _ _ _ (led_trans _ _ _ _ _ _ _ (led_trans _ _ _ _ _ _ _ L1 Lt) L2) L3)]. led_arith. }
+    assert (H3 : 0 < hc s3 root) by (eapply led_hc_pos; [exact L03 | rewrite cnt_cons, ind_same; lia | reflexivity]).
+    assert (Ok : forall m ino,
+      let s4 := set_ref B root (fr_with_mode (gref s3 root) m) s3 in
+      RefInvD (snd (match names with
+          | [] => (rok ino, release B bstep root (insert_fid B bstep c fid root s4))
+          | _ =>
+              let '(d0, s5) := do_walk B bstep root names false s4 in
+              match d0 with
+              | DFail e => (rerr e, release B bstep root s5)
+              | DOk nr => (rok ino, release B bstep root (release B bstep nr (insert_fid B bstep c fid nr s5)))
+              end
+          end)) d /\
+      led [] [] s (snd (match names with
+          | [] => (rok ino, release B bstep root (insert_fid B bstep c fid root s4))
+          | _ =>
+              let '(d0, s5) := do_walk B bstep root names false s4 in
+              match d0 with
+              | DFail e => (rerr e, release B bstep root s5)
+              | DOk nr => (rok ino, release B bstep root (release B bstep nr (insert_fid B bstep c fid nr s5)))
+              end
+          end))).
+    { intros m ino s4.
+      destruct (set_fields_ok s3 d root (fr_with_mode (gref s3 root) m) I3 eq_refl eq_refl eq_refl) as (I4 & L4). fold s4 in I4, L4.
+      assert (L04 : led [root] [] s s4) by (eapply led_equiv; [|exact (led_trans _ _ _ _ _ _ _ L03 L4)]; led_arith).
+      assert (H4 : 0 < hc s4 root) by (eapply led_hc_pos; [exact L4 | lia | reflexivity]).
+      assert (Tail : forall s5, RefInvD s5 d -> led [root] [] s s5 ->
+                RefInvD (release B bstep root s5) d /\ led [] [] s (release B bstep root s5)).
+      { intros s5 I5 L5.
+        assert (H5 : 0 < hc s5 root) by (eapply led_hc_pos; [exact L5 | rewrite cnt_cons, ind_same; lia | reflexivity]).
+        destruct (release_ok s5 d root I5 H5) as (I6 & L6). split; auto.
+        eapply led_equiv; [|exact (led_trans _ _ _ _ _ _ _ L5 L6)]. led_arith. }
+      destruct names as [|nm rest].
+      - cbn [snd]. destruct (insert_ok s4 d c fid root I4 ltac:(pose proof (C_hc s4 root); lia)) as (I5 & L5).
+        apply Tail; auto. eapply led_equiv; [|exact (led_trans _ _ _ _ _ _ _ L04 L5)]. led_arith.
+      - pose proof (do_walk_ok root (nm :: rest) false s4 d I4 H4) as W. cbv zeta in W.
+        destruct (do_walk B bstep root (nm :: rest) false s4) as [res s5]. cbn [fst snd] in W. destruct W as (I5 & L5).
+        destruct res as [e|nr]; cbn [snd].
+        + apply Tail; auto. eapply led_equiv; [|exact (led_trans _ _ _ _ _ _ _ L04 L5)]. led_arith.
+        + assert (Hn : 0 < hc s5 nr) by (eapply led_hc_pos; [exact L5 | rewrite cnt_cons, ind_same; lia | reflexivity]).
+          destruct (insert_ok s5 d c fid nr I5 ltac:(pose proof (C_hc s5 nr); lia)) as (I6 & L6).
+          assert (Hn6 : 0 < hc (insert_fid B bstep c fid nr s5) nr) by (eapply led_hc_pos; [exact L6 | lia | reflexivity]).
+          destruct (release_ok _ d nr I6 Hn6) as (I7 & L7).
+          apply Tail; auto.
+          eapply led_equiv; [|exact (led_trans _ _ _ _ _ _ _ (led_trans _ _ _ _ _ _ _ (led_trans _ _ _ _ _ _ _ L04 L5) L6) L7)]. led_arith. }
+    destruct a2 as [m ino|e|m ino]; [apply Ok | | apply Ok].
+    cbn [snd]. destruct (release_ok s3 d root I3 H3) as (I4 & L4). split; auto.
+    eapply led_equiv; [|exact (led_trans _ _ _ _ _ _ _ L03 L4)]. led_arith. }
+  cbv zeta in Main.
+  destruct a as [m ino|e|m ino]; [| cbn; auto |];
+  destruct (new_ref B _ (take_handle B s1)) as [root s2]; destruct (bcall_ B bstep (BGetAttr (s_nexth B s)) s2) as [a2 s3]; exact Main.
+Qed.
+
+Lemma ok_bracket_sc c fid body :
+  (forall r s, same_core s (snd (body r s))) -> ok [] (fun s => snd (with_fid B bstep c fid body s)).
+Proof. intros H. apply with_fid_ok. intros r. apply ok_sc. intros s. apply H. Qed.
+
+Lemma ok_getattr c fid : ok [] (fun s => snd (do_getattr B bstep c fid s)).
+Proof. apply ok_bracket_sc. intros r s. sc_leaf. Qed.
+Lemma ok_use k c fid : ok [] (fun s => snd (do_use B bstep k c fid s)).
+Proof. apply ok_bracket_sc. intros r s. sc_leaf. Qed.
+Lemma ok_setattr c fid : ok [] (fun s => snd (do_setattr B bstep c fid s)).
+Proof. apply ok_bracket_sc. intros r s. sc_leaf. Qed.
+Lemma ok_mk k c fid nm : ok [] (fun s => snd (do_mk B bstep k c fid nm s)).
+Proof. apply ok_bracket_sc. intros r s. sc_leaf. Qed.
+Lemma ok_readlink c fid : ok [] (fun s => snd (do_readlink B bstep c fid s)).
+Proof. apply ok_bracket_sc. intros r s. sc_leaf. Qed.
+Lemma ok_readdir c fid : ok [] (fun s => snd (do_readdir B bstep c fid s)).
+Proof. apply ok_bracket_sc. intros r s. cbv zeta. sc_leaf. Qed.
+Lemma ok_io k c fid : ok [] (fun s => snd (do_io B bstep k c fid s)).
+Proof.
+  apply ok_bracket_sc. intros r s. cbv zeta.
+  destruct (k =? uFsync); [sc_leaf|]. destruct (k =? uRead); destruct (fr_xop (gref s r)); sc_leaf.
+Qed.
+
+Lemma ok_link c dfid tfid nm : ok [] (fun s => snd (do_link B bstep c dfid tfid nm s)).
+Proof.
+  unfold do_link. apply with_fid_ok. intros r. apply with_fid_ok. intros t. apply ok_sc. intros s. sc_leaf.
+Qed.
+
+Lemma ok_unlinkat c fid nm : ok [] (fun s => snd (do_unlinkat B bstep c fid nm s)).
+Proof.
+  apply ok_bracket_sc. intros r s. destruct (dir_guard B s r); [sc_leaf|]. cbv zeta.
+  pose proof (sc_path_node_for (fr_node (gref s r)) nm s) as SC1.
+  destruct (path_node_for B (fr_node (gref s r)) nm s) as [cn s1]. cbn [snd] in SC1.
+  pose proof (sc_bcall B bstep (BUnlinkAt (fr_file (gref s r)) nm) s1) as SC2.
+  destruct (bcall_ B bstep (BUnlinkAt (fr_file (gref s r)) nm) s1) as [a s2]. cbn [snd] in SC2.
+  assert (SC02 : same_core s s2) by (eapply same_core_trans; eauto).
+  destruct a; cbn [snd]; auto; (eapply same_core_trans; [exact SC02 | apply sc_mark_child_deleted]).
+Qed.
+
+Lemma ok_open c fid flags : ok [] (fun s => snd (do_open B bstep c fid flags s)).
+Proof.
+  unfold do_open. apply with_fid_ok. intros r s d Inv _. cbv zeta.
+  destruct (is_deleted B s r); [cbn; split; [auto | apply led_refl]|].
+  destruct (_ || _); [cbn; split; [auto | apply led_refl]|]. destruct (_ && _); [cbn; split; [auto | apply led_refl]|].
+  pose proof (sc_bcall B bstep (BOpen (fr_file (gref s r)) flags) s) as SC.
+  destruct (bcall_ B bstep (BOpen (fr_file (gref s r)) flags) s) as [a s1]. cbn [snd] in SC.
+  destruct (sc_ok s s1 d SC Inv) as (I1 & L1).
+  destruct a; cbn [snd]; auto;
+    destruct (set_fields_ok s1 d r (fr_with_open (gref s1 r) flags) I1 eq_refl eq_refl eq_refl) as (I2 & L2);
+    (split; [exact I2|]); (eapply led_equiv; [|exact (led_trans _ _ _ _ _ _ _ L1 L2)]); led_arith.
+Qed.
+
+Lemma ok_xattrcreate c fid : ok [] (fun s => snd (do_xattrcreate B bstep c fid s)).
+Proof.
+  unfold do_xattrcreate. apply with_fid_ok. intros r s d Inv _.
+  destruct (is_deleted B s r); cbn [snd]; [split; [auto | apply led_refl]|].
+  apply set_fields_ok; auto.
+Qed.
+
+Lemma ok_clunk c fid : ok [] (fun s => snd (do_clunk B bstep c fid s)).
+Proof.
+  intros s d Inv HP. unfold do_clunk.
+  set (body := fun r s => match fr_xop (gref s r) with
+                          | XCreate => guarded_call B bstep r None (BUse uSetXattr (fr_file (gref s r))) s
+                          | _ => (rok 0, s) end).
+  assert (W : ok [] (fun s => snd (with_fid B bstep c fid body s))).
+  { apply ok_bracket_sc. intros r s0. unfold body. destruct (fr_xop (gref s0 r)); sc_leaf. }
+  destruct (W s d Inv HP) as (I1 & L1).
+  destruct (with_fid B bstep c fid body s) as [cerr s1]. cbn [snd] in *.
+  destruct (delete_ok s1 d c fid I1) as (I2 & L2).
+  destruct (delete_fid B bstep c fid s1) as [e s2]. cbn [snd] in *.
+  assert (R : RefInvD s2 d /\ led [] [] s s2).
+  { split; auto. eapply led_equiv; [|exact (led_trans _ _ _ _ _ _ _ L1 L2)]. led_arith. }
+  destruct e; [exact R|]. destruct (fst cerr =? 0); exact R.
+Qed.
+
+Lemma ok_remove c fid : ok [] (fun s => snd (do_remove B bstep c fid s)).
+Proof.
+  unfold do_remove. apply with_fid_ok. intros r s d Inv _. cbv zeta.
+  set (first := match fr_parent (gref s r) with
+                | None => (Some EINVAL, s)
+                | Some p =>
+                    if is_deleted B s r then (Some EINVAL, s)
+                    else match name_for B (fr_node (gref s p)) r s with
+                         | None => (Some EFAULT, set_panic B s)
+                         | Some nm =>
+                             let '(a, s1) := bcall_ B bstep (BUnlinkAt (fr_file (gref s p)) nm) s in
+                             match a with
+                             | AErr e => (Some e, s1)
+                             | _ => (None, mark_child_deleted B bstep (fr_node (gref s1 p)) nm s1)
+                             end
+                         end
+                end).
+  assert (SC : same_core s (snd first)).
+  { unfold first. destruct (fr_parent (gref s r)) as [p|]; [|sc_leaf].
+    destruct (is_deleted B s r); [sc_leaf|]. destruct (name_for _ _ _ _) as [nm|]; [|sc_leaf].
+    pose proof (sc_bcall B bstep (BUnlinkAt (fr_file (gref s p)) nm) s) as SC1.
+    destruct (bcall_ B bstep (BUnlinkAt (fr_file (gref s p)) nm) s) as [a s1]. cbn [snd] in SC1.
+    destruct a; cbn [snd]; auto; (eapply same_core_trans; [exact SC1 | apply sc_mark_child_deleted]). }
+  destruct first as [err s1]. cbn [snd] in SC.
+  destruct (sc_ok s s1 d SC Inv) as (I1 & L1).
+  destruct (s_panic B s1 && negb (s_panic B s)); [cbn; auto|].
+  destruct (delete_ok s1 d c fid I1) as (I2 & L2).
+  destruct (delete_fid B bstep c fid s1) as [fe s2]. cbn [snd] in *.
+  assert (R : RefInvD s2 d /\ led [] [] s s2).
+  { split; auto. eapply led_equiv; [|exact (led_trans _ _ _ _ _ _ _ L1 L2)]. led_arith. }
+  destruct fe; [exact R|]. destruct err; exact R.
+Qed.
+
+Lemma ok_create c fid nm flags : ok [] (fun s => snd (do_create B bstep c fid nm flags s)).
+Proof.
+  unfold do_create. apply with_fid_ok. intros r s d Inv HP.
+  assert (Hr : 0 < hc s r) by (apply HP; left; reflexivity).
+  destruct (dir_guard B s r); [cbn; split; [auto | apply led_refl]|]. cbv zeta.
+  pose proof (sc_bcall B bstep (BCreate (fr_file (gref s r)) nm (s_nexth B s)) s) as SC1.
+  destruct (bcall_ B bstep (BCreate (fr_file (gref s r)) nm (s_nexth B s)) s) as [a s1]. cbn [snd] in SC1.
+  destruct (sc_ok s s1 d SC1 Inv) as (I1 & L1).
+  assert (Main : forall ino,
+    RefInvD (snd (let '(cn, s2) := path_node_for B (fr_node (gref s r)) nm (take_handle B s1) in
+         let '(nr, s3) := new_ref_inc B (mkref (s_nexth B s) 0 true flags MReg cn (Some r) None XNone) s2 in
+         let s4 := add_child B (fr_node (gref s r)) nr nm s3 in
+         if s_panic B s4 then (rerr EFAULT, s4)
+         else (rok ino, release B bstep nr (insert_fid B bstep c fid nr s4)))) d /\
+    led [] [] s (snd (let '(cn, s2) := path_node_for B (fr_node (gref s r)) nm (take_handle B s1) in
+         let '(nr, s3) := new_ref_inc B (mkref (s_nexth B s) 0 true flags MReg cn (Some r) None XNone) s2 in
+         let s4 := add_child B (fr_node (gref s r)) nr nm s3 in
+         if s_panic B s4 then (rerr EFAULT, s4)
+         else (rok ino, release B bstep nr (insert_fid B bstep c fid nr s4))))).
+  { intros ino.
+    pose proof (sc_take_handle s1) as SCt. destruct (sc_ok s1 _ d SCt I1) as (It & Lt).
+    pose proof (sc_path_node_for (fr_node (gref s r)) nm (take_handle B s1)) as SC2.
+    destruct (path_node_for B (fr_node (gref s r)) nm (take_handle B s1)) as [cn s2]. cbn [snd] in SC2.
+    destruct (sc_ok _ s2 d SC2 It) as (I2 & L2).
+    assert (L02 : led [] [] s s2).
+    { eapply led_equiv; [|exact (led_trans _ _ _ _ _ _ _ (led_trans _ _ _ _ _ _ _ L1 Lt) L2)]. led_arith. }
+    assert (Hr2 : 0 < hc s2 r) by (eapply led_hc_pos; [exact L02 | lia | reflexivity]).
+    set (x := mkref (s_nexth B s) 0 true flags MReg cn (Some r) None XNone).
+    assert (HPx : forall p, fr_parent x = Some p -> 0 < C s2 p /\ fr_xattrOf x = None).
+    { intros p [= <-]. split; [pose proof (C_hc s2 r); lia | reflexivity]. }
+    destruct (new_ref_inc_ok s2 d x I2 HPx ltac:(intros o Ho; discriminate)) as (E3 & I3 & L3).
+    destruct (new_ref_inc B x s2) as [nr s3]. cbn [fst snd] in *.
+    pose proof (sc_add_child (fr_node (gref s r)) nr nm s3) as SC4.
+    set (s4 := add_child B (fr_node (gref s r)) nr nm s3) in *.
+    destruct (sc_ok s3 s4 d SC4 I3) as (I4 & L4).
+    assert (L04 : led [nr] [] s s4).
+    { eapply led_equiv; [|exact (led_trans _ _ _ _ _ _ _ (led_trans _ _ _ _ _ _ _ L02 L3) L4)]. led_arith. }
+    destruct (s_panic B s4) eqn:P4; cbn [snd].
+    - split; auto. apply (led_weaken_panic [] [nr] []); auto.
+    - assert (Hn : 0 < hc s4 nr) by (eapply led_hc_pos; [exact L04 | rewrite cnt_cons, ind_same; lia | reflexivity]).
+      destruct (insert_ok s4 d c fid nr I4 ltac:(pose proof (C_hc s4 nr); lia)) as (I5 & L5).
+      assert (Hn5 : 0 < hc (insert_fid B bstep c fid nr s4) nr) by (eapply led_hc_pos; [exact L5 | lia | reflexivity]).
+      destruct (release_ok _ d nr I5 Hn5) as (I6 & L6). split; auto.
+      eapply led_equiv; [|exact (led_trans _ _ _ _ _ _ _ (led_trans _ _ _ _ _ _ _ L04 L5) L6)]. led_arith. }
+  destruct a as [m ino|e|m ino]; [apply Main | cbn; auto | apply Main].
+Qed.
+
+Lemma ok_xattrwalk c fid newfid : ok [] (fun s => snd (do_xattrwalk B bstep c fid newfid s)).
+Proof.
+  unfold do_xattrwalk. apply with_fid_ok. intros r s d Inv HP.
+  assert (Hr : 0 < hc s r) by (apply HP; left; reflexivity).
+  destruct (is_deleted B s r); [cbn; split; [auto | apply led_refl]|]. cbv zeta.
+  pose proof (sc_bcall B bstep (BUse uGetXattr (fr_file (gref s r))) s) as SC1.
+  destruct (bcall_ B bstep (BUse uGetXattr (fr_file (gref s r))) s) as [a s1]. cbn [snd] in SC1.
+  destruct (sc_ok s s1 d SC1 Inv) as (I1 & L1).
+  assert (Main :
+    let '(nr, s2) := new_ref_inc B (mkref (fr_file (gref s r)) 0 false 0 MNone (fr_node (gref s r)) None (Some r) XWalk) s1 in
+    RefInvD (release B bstep nr (insert_fid B bstep c newfid nr s2)) d /\
+    led [] [] s (release B bstep nr (insert_fid B bstep c newfid nr s2))).
+  { assert (Hr1 : 0 < hc s1 r) by (eapply led_hc_pos; [exact L1 | lia | reflexivity]).
+    set (x := mkref (fr_file (gref s r)) 0 false 0 MNone (fr_node (gref s r)) None (Some r) XWalk).
+    assert (HX : forall o, fr_xattrOf x = Some o -> 0 < C s1 o).
+    { intros o [= <-]. pose proof (C_hc s1 r); lia. }
+    destruct (new_ref_inc_ok s1 d x I1 ltac:(intros p Hp; discriminate) HX) as (E2 & I2 & L2).
+    destruct (new_ref_inc B x s1) as [nr s2]. cbn [fst snd] in *.
+    assert (L02 : led [nr] [] s s2) by (eapply led_equiv; [|exact (led_trans _ _ _ _ _ _ _ L1 L2)]; led_arith).
+    assert (Hn : 0 < hc s2 nr) by (eapply led_hc_pos; [exact L02 | rewrite cnt_cons, ind_same; lia | reflexivity]).
+    destruct (insert_ok s2 d c newfid nr I2 ltac:(pose proof (C_hc s2 nr); lia)) as (I3 & L3).
+    assert (Hn3 : 0 < hc (insert_fid B bstep c newfid nr s2) nr) by (eapply led_hc_pos; [exact L3 | lia | reflexivity]).
+    destruct (release_ok _ d nr I3 Hn3) as (I4 & L4). split; auto.
+    eapply led_equiv; [|exact (led_trans _ _ _ _ _ _ _ (led_trans _ _ _ _ _ _ _ L02 L3) L4)]. led_arith. }
+  destruct (new_ref_inc B _ s1) as [nr s2].
+  destruct a; cbn [snd]; auto.
+Qed.
+
+Lemma stop_loop_ok l c : forall s d, RefInvD s d -> RefInvD (stop_loop B bstep l c s) d /\ led [] [] s (stop_loop B bstep l c s).
+Proof.
+  induction l as [|[[c' f] r] l IH]; intros s d Inv; cbn [stop_loop]; [split; [auto | apply led_refl]|].
+  destruct (c' =? c); auto.
+  destruct (delete_ok s d c' f Inv) as (I1 & L1). destruct (IH _ d I1) as (I2 & L2). split; auto.
+  eapply led_equiv; [|exact (led_trans _ _ _ _ _ _ _ L1 L2)]. led_arith.
+Qed.
+
+Lemma ok_stop c : ok [] (fun s => snd (do_stop B bstep c s)).
+Proof. intros s d Inv _. unfold do_stop. cbn [snd]. apply stop_loop_ok; auto. Qed.
+
+(** ---- rename ---- *)
+Lemma led_keeps s s' : keeps B s s' -> led [] [] s s'.
+Proof. intros (_ & Hh & _ & _ & P & _). split; [exact P|]. unfold hc. rewrite Hh. split; intros; lia. Qed.
+
+Lemma rename_cb_ok tgt newnm r s d :
+  RefInvD s d -> 0 < C s r -> 0 < C s tgt ->
+  RefInvD (rename_cb B bstep tgt newnm r s) d /\ led [] [] s (rename_cb B bstep tgt newnm r s).
+Proof.
+  intros Inv Hr Ht. unfold rename_cb.
+  destruct (fr_parent (gref s r)) as [p|] eqn:EP; [|apply sc_ok; auto; apply sc_set_panic].
+  pose proof (reparent_inv B s d r p tgt Inv Hr EP Ht) as I1.
+  set (s1 := incref B tgt (set_ref B r (fr_with_parent (gref s r) (Some tgt)) s)) in *.
+  assert (L1 : led [] [] s s1). { split; [intro; auto|]. unfold hc; cbn. split; intros; lia. }
+  destruct (decref_ok B bstep p s1 d I1) as (I2 & _ & K2).
+  set (s2 := snd (decref_ B bstep p s1)) in *.
+  pose proof (sc_add_child (fr_node (gref s2 tgt)) r newnm s2) as SC3.
+  set (s3 := add_child B (fr_node (gref s2 tgt)) r newnm s2) in *.
+  destruct (sc_ok s2 s3 d SC3 I2) as (I3 & L3).
+  pose proof (sc_bcall B bstep (BRenamed (fr_file (gref s3 r)) (fr_file (gref s3 tgt)) newnm) s3) as SC4.
+  destruct (sc_ok s3 _ d SC4 I3) as (I4 & L4). split; auto.
+  eapply led_equiv; [|exact (led_trans _ _ _ _ _ _ _ (led_trans _ _ _ _ _ _ _ (led_trans _ _ _ _ _ _ _ L1 (led_keeps _ _ K2)) L3) L4)]. led_arith.
+Qed.
+
+Lemma rwn_loop_ok n nm tgt newnm m : forall held s d,
+  RefInvD s d -> 0 < hc s tgt ->
+  let r := rwn_loop B n nm (Some (rename_cb B bstep tgt newnm)) m held s in
+  RefInvD (snd r) d /\ exists new, fst r = held ++ new /\ led new [] s (snd r).
+Proof.
+  induction m as [|r m IH]; intros held s d Inv Ht; cbv zeta; cbn [rwn_loop].
+  - cbn. split; auto. exists []. rewrite app_nil_r. split; [reflexivity | apply led_refl].
+  - cbv zeta.
+    set (s1 := set_node B n _ s).
+    assert (SC1 : same_core s s1) by (repeat split; auto).
+    destruct (sc_ok s s1 d SC1 Inv) as (I1 & L1).
+    assert (Ht1 : 0 < hc s1 tgt) by (eapply led_hc_pos; [exact L1 | lia | reflexivity]).
+    unfold try_incref.
+    destruct (Z.leb_spec (fr_refs (gref s1 r)) 0) as [Le|Gt].
+    + specialize (IH held s1 d I1 Ht1). cbv zeta in IH. destruct IH as (I2 & new & E2 & L2).
+      cbn [fst snd]. split; [exact I2|]. exists new. split; [exact E2|].
+      eapply led_equiv; [|exact (led_trans _ _ _ _ _ _ _ L1 L2)]. led_arith.
+    + assert (Lr : r < length (s_refs B s1)).
+      { destruct (Nat.lt_ge_cases r (length (s_refs B s1))); auto. unfold get_ref in Gt. rewrite nth_overflow in Gt by auto. cbn in Gt. lia. }
+      change (with_held B (r :: s_held B (incref B r s1)) (incref B r s1)) with (hold B r s1).
+      pose proof (hold_inv_live B s1 d r I1 Lr Gt) as I2.
+      assert (L2 : led [r] [] s1 (hold B r s1)).
+      { split; [intro; auto|]. unfold hc, hold; cbn. split; intros; rewrite !cnt_cons, !cnt_nil; lia. }
+      assert (Hr2 : 0 < hc (hold B r s1) r) by (eapply led_hc_pos; [exact L2 | rewrite cnt_cons, ind_same; lia | reflexivity]).
+      assert (Ht2 : 0 < hc (hold B r s1) tgt) by (eapply led_hc_pos; [exact L2 | lia | reflexivity]).
+      destruct (rename_cb_ok tgt newnm r (hold B r s1) d I2 ltac:(pose proof (C_hc (hold B r s1) r); lia) ltac:(pose proof (C_hc (hold B r s1) tgt); lia)) as (I3 & L3).
+      set (s3 := rename_cb B bstep tgt newnm r (hold B r s1)) in *.
+      assert (Ht3 : 0 < hc s3 tgt) by (eapply led_hc_pos; [exact L3 | lia | reflexivity]).
+      specialize (IH (held ++ [r]) s3 d I3 Ht3). cbv zeta in IH. destruct IH as (I4 & new & E4 & L4).
+      split; auto. exists (r :: new). split; [rewrite E4, <- app_assoc; reflexivity|].
+      eapply led_equiv; [|exact (led_trans _ _ _ _ _ _ _ (led_trans _ _ _ _ _ _ _ (led_trans _ _ _ _ _ _ _ L1 L2) L3) L4)]. led_arith.
+Qed.
+
+Lemma release_all_ok l : forall s d,
+  RefInvD s d -> (forall q, cnt l q <= hc s q) ->
+  RefInvD (release_all B bstep l s) d /\ led [] l s (release_all B bstep l s).
+Proof.
+  induction l as [|r l IH]; intros s d Inv H; cbn [release_all]; [split; [auto | apply led_refl]|].
+  assert (Hr : 0 < hc s r). { specialize (H r). rewrite cnt_cons, ind_same in H. lia. }
+  destruct (release_ok s d r Inv Hr) as (I1 & L1).
+  assert (H1 : forall q, cnt l q <= hc (release B bstep r s) q).
+  { intros q. specialize (H q). rewrite cnt_cons in H. pose proof (led_ge _ _ _ _ q L1) as G.
+    rewrite cnt_cons, !cnt_nil in G. lia. }
+  destruct (IH _ d I1 H1) as (I2 & L2). split; auto.
+  eapply led_equiv; [|exact (led_trans _ _ _ _ _ _ _ L1 L2)]. led_arith.
+Qed.
+
+Lemma remove_with_name_ok n nm tgt newnm s d :
+  RefInvD s d -> 0 < hc s tgt ->
+  let r := remove_with_name B bstep n nm (Some (rename_cb B bstep tgt newnm)) s in
+  RefInvD (snd r) d /\ led [] [] s (snd r).
+Proof.
+  intros Inv Ht. cbv zeta. unfold remove_with_name.
+  set (lp := match alookup Nat.eqb nm (pn_refs (get_node B s n)) with
+             | Some m => rwn_loop B n nm (Some (rename_cb B bstep tgt newnm)) m [] s | None => ([], s) end).
+  assert (H1 : RefInvD (snd lp) d /\ exists new, fst lp = new /\ led new [] s (snd lp)).
+  { unfold lp. destruct (alookup Nat.eqb nm (pn_refs (get_node B s n))) as [m|].
+    - pose proof (rwn_loop_ok n nm tgt newnm m [] s d Inv Ht) as W. cbv zeta in W. destruct W as (I & new & E & L).
+      split; auto. exists new. split; auto.
+    - cbn. split; auto. exists []. split; [reflexivity | apply led_refl]. }
+  destruct lp as [held s1]. cbn [fst snd] in H1. destruct H1 as (I1 & new & -> & L1).
+  set (s2 := set_node B n _ s1).
+  assert (SC2 : same_core s1 s2) by (repeat split; auto).
+  destruct (sc_ok s1 s2 d SC2 I1) as (I2 & L2).
+  assert (L02 : led new [] s s2) by (eapply led_equiv; [|exact (led_trans _ _ _ _ _ _ _ L1 L2)]; led_arith).
+  assert (H2 : forall q, cnt new q <= hc s2 q).
+  { intros q. pose proof (led_ge _ _ _ _ q L02) as G. rewrite cnt_nil in G. lia. }
+  cbn [snd]. destruct (release_all_ok new s2 d I2 H2) as (I3 & L3). split; auto.
+  eapply led_equiv; [|exact (led_trans _ _ _ _ _ _ _ L02 L3)]. led_arith.
+Qed.
+
+Lemma rename_child_to_ok fnode oldnm tgt newnm s d :
+  RefInvD s d -> 0 < hc s tgt ->
+  RefInvD (rename_child_to B bstep fnode oldnm tgt newnm s) d /\ led [] [] s (rename_child_to B bstep fnode oldnm tgt newnm s).
+Proof.
+  intros Inv Ht. unfold rename_child_to. cbv zeta.
+  pose proof (sc_mark_child_deleted (fr_node (gref s tgt)) newnm s) as SC1.
+  set (s1 := mark_child_deleted B bstep (fr_node (gref s tgt)) newnm s) in *.
+  destruct (sc_ok s s1 d SC1 Inv) as (I1 & L1).
+  assert (Ht1 : 0 < hc s1 tgt) by (eapply led_hc_pos; [exact L1 | lia | reflexivity]).
+  pose proof (remove_with_name_ok fnode oldnm tgt newnm s1 d I1 Ht1) as W. cbv zeta in W.
+  destruct (remove_with_name B bstep fnode oldnm (Some (rename_cb B bstep tgt newnm)) s1) as [orig s2]. cbn [snd] in W.
+  destruct W as (I2 & L2).
+  assert (L02 : led [] [] s s2) by (eapply led_equiv; [|exact (led_trans _ _ _ _ _ _ _ L1 L2)]; led_arith).
+  destruct orig as [cn|]; [|auto].
+  pose proof (sc_add_path_node_for (fr_node (gref s tgt)) newnm cn s2) as SC3.
+  set (s3 := add_path_node_for B (fr_node (gref s tgt)) newnm cn s2) in *.
+  destruct (sc_ok s2 s3 d SC3 I2) as (I3 & L3).
+  assert (L03 : led [] [] s s3) by (eapply led_equiv; [|exact (led_trans _ _ _ _ _ _ _ L02 L3)]; led_arith).
+  destruct (s_panic B s3); [auto|].
+  destruct (sc_ok s3 _ d (sc_notify_name_change (node_fuel B s3) cn s3) I3) as (I4 & L4). split; auto.
+  eapply led_equiv; [|exact (led_trans _ _ _ _ _ _ _ L03 L4)]. led_arith.
+Qed.
+
+Lemma ok_rename c fid dfid nm : ok [] (fun s => snd (do_rename B bstep c fid dfid nm s)).
+Proof.
+  unfold do_rename. apply with_fid_ok. intros r. apply with_fid_ok. intros t s d Inv HP. cbv zeta.
+  assert (Ht : 0 < hc s t) by (apply HP; left; reflexivity).
+  destruct (fr_parent (gref s r)) as [p|]; [|cbn; split; [auto | apply led_refl]].
+  destruct (_ || _); [cbn; split; [auto | apply led_refl]|].
+  destruct (is_deleted B s p); [cbn [snd]; apply sc_ok; auto; apply sc_set_panic|].
+  destruct (name_for B (fr_node (gref s p)) r s) as [old|]; [|cbn [snd]; apply sc_ok; auto; apply sc_set_panic].
+  destruct (_ && _); [cbn; split; [auto | apply led_refl]|].
+  pose proof (sc_bcall B bstep (BRenameAt (fr_file (gref s p)) old (fr_file (gref s t)) nm) s) as SC1.
+  destruct (bcall_ B bstep (BRenameAt (fr_file (gref s p)) old (fr_file (gref s t)) nm) s) as [a s1]. cbn [snd] in SC1.
+  destruct (sc_ok s s1 d SC1 Inv) as (I1 & L1).
+  assert (Ht1 : 0 < hc s1 t) by (eapply led_hc_pos; [exact L1 | lia | reflexivity]).
+  destruct (rename_child_to_ok (fr_node (gref s p)) old t nm s1 d I1 Ht1) as (I2 & L2).
+  assert (R : RefInvD (rename_child_to B bstep (fr_node (gref s p)) old t nm s1) d /\
+              led [] [] s (rename_child_to B bstep (fr_node (gref s p)) old t nm s1)).
+  { split; auto. eapply led_equiv; [|exact (led_trans _ _ _ _ _ _ _ L1 L2)]. led_arith. }
+  destruct a; cbn [snd]; auto.
+Qed.
+
+Lemma ok_renameat c fid oldnm fid2 newnm : ok [] (fun s => snd (do_renameat B bstep c fid oldnm fid2 newnm s)).
+Proof.
+  unfold do_renameat. apply with_fid_ok. intros r. apply with_fid_ok. intros t s d Inv HP. cbv zeta.
+  assert (Ht : 0 < hc s t) by (apply HP; left; reflexivity).
+  destruct (_ || _); [cbn; split; [auto | apply led_refl]|].
+  destruct (fr_opened (gref s r)); [cbn; split; [auto | apply led_refl]|].
+  destruct (_ && _); [cbn; split; [auto | apply led_refl]|].
+  pose proof (sc_bcall B bstep (BRenameAt (fr_file (gref s r)) oldnm (fr_file (gref s t)) newnm) s) as SC1.
+  destruct (bcall_ B bstep (BRenameAt (fr_file (gref s r)) oldnm (fr_file (gref s t)) newnm) s) as [a s1]. cbn [snd] in SC1.
+  destruct (sc_ok s s1 d SC1 Inv) as (I1 & L1).
+  assert (Ht1 : 0 < hc s1 t) by (eapply led_hc_pos; [exact L1 | lia | reflexivity]).
+  destruct (rename_child_to_ok (fr_node (gref s r)) oldnm t newnm s1 d I1 Ht1) as (I2 & L2).
+  assert (R : RefInvD (rename_child_to B bstep (fr_node (gref s r)) oldnm t newnm s1) d /\
+              led [] [] s (rename_child_to B bstep (fr_node (gref s r)) oldnm t newnm s1)).
+  { split; auto. eapply led_equiv; [|exact (led_trans _ _ _ _ _ _ _ L1 L2)]. led_arith. }
+  destruct a; cbn [snd]; auto.
+Qed.
+
+(** ---- every request, every history ---- *)
+Theorem step_ok o : ok [] (fun s => snd (step B bstep o s)).
+Proof.
+  destruct o; cbn [step].
+  - apply ok_attach. - apply ok_walk_op. - apply ok_clunk. - apply ok_remove. - apply ok_open.
+  - apply ok_create. - apply ok_mk. - apply ok_link. - apply ok_getattr. - apply ok_use. - apply ok_io.
+  - apply ok_setattr. - apply ok_readdir. - apply ok_readlink. - apply ok_unlinkat. - apply ok_rename.
+  - apply ok_renameat. - apply ok_xattrwalk. - apply ok_xattrcreate. - apply ok_stop.
+Qed.
+
+Theorem run_ok ops : forall s, RefInv s -> RefInv (snd (run B bstep ops s)) /\ led [] [] s (snd (run B bstep ops s)).
+Proof.
+  induction ops as [|o ops IH]; intros s Inv; cbn [run]; [split; [auto | apply led_refl]|].
+  destruct (step_ok o s [] Inv ltac:(intros x [])) as (I1 & L1).
+  destruct (step B bstep o s) as [rep s1]. cbn [snd] in *.
+  destruct (IH s1 I1) as (I2 & L2). destruct (run B bstep ops s1) as [reps s2]. cbn [snd] in *.
+  split; auto. eapply led_equiv; [|exact (led_trans _ _ _ _ _ _ _ L1 L2)]. led_arith.
+Qed.
+
+Lemma cnt_zero_nil l : (forall q, cnt l q = 0) -> l = [].
+Proof. destruct l as [|x l]; auto. intros H. specialize (H x). rewrite cnt_cons, ind_same in H. lia. Qed.
+
+(** C05_inv: after every history from the initial state, for every backend: the reference-count
+    invariant holds, the DecRef cascades never ran out of fuel, and (no run-time panic having been
+    flagged) no transient reference is left *)
+Theorem history_inv ops b :
+  let s := snd (run B bstep ops (init_state B b)) in
+  RefInv s /\ (s_panic B s = false -> s_held B s = []).
+Proof.
+  cbv zeta. destruct (run_ok ops (init_state B b) (init_inv B b)) as (I & (_ & _ & E)).
+  split; auto. intros Hp. apply cnt_zero_nil. intros q. specialize (E Hp q). unfold hc in E. cbn in E.
+  rewrite !cnt_nil in E. lia.
 Qed.
 End Step.
